@@ -108,31 +108,28 @@ impl ObjectPath {
     /// This function panics if the current path points to a gate.
     #[must_use]
     pub fn appended(&self, module: impl AsRef<str>) -> Self {
-        let mut data = self.data.to_string();
-        let mut last_element_offset = self.last_element_offset;
-        let mut len = self.len;
-
         assert!(
             !self.is_gate,
             "cannot append to a path that points to a gate"
         );
 
         let suffix = module.as_ref();
-        if !suffix.is_empty() {
-            if self.len != 0 {
-                last_element_offset = data.len() + 1;
-                data.push('.');
-            }
-            data.push_str(suffix);
-            len += 1;
+        if suffix.is_empty() {
+            return Self {
+                is_gate: false,
+                ..self.clone()
+            };
         }
 
-        Self {
-            data: data.into(),
-            last_element_offset,
-            len,
-            is_gate: false,
+        let mut data = self.data.to_string();
+        if self.len != 0 {
+            data.push('.');
         }
+        data.push_str(suffix);
+
+        // The suffix may consist of several components itself (e.g. "sw.port"),
+        // so derive the bookkeeping from the complete path.
+        Self::from(data.as_str())
     }
 
     /// Retruns a new object path pointing to the gate on the current module.
